@@ -50,6 +50,7 @@ func c06(c *Ctx) {
 	P, R := c.P, c.R
 	R.Explain("R06.8", "a remove followed by a re-add reaches the session in that order: in State.popResponders every path of the *expunge edge (permitExpunge=false) records the message id in the skip set, whatever the snapshot holds, so the EXISTS of the re-add waits behind the held-back EXPUNGE; released early it is applied first and the later EXPUNGE then removes the message the connector re-added (shared with R05.2).")
 	if pop := c.fn("R06.8", "internal/state.(*State).popResponders"); pop != nil {
+		pop, _, _ = holdBackFunction(pop)
 		n, esc := c.expungeHoldbackAlwaysRecordsID(pop)
 		R.Check(esc == "", "R06.8", c.name(pop)+"|held-back expunge always recorded", P.Pos(pop.Pos()), "every path of the *expunge edge adds the id to the skip set", "a held-back *expunge can pass without its message id being recorded (path leaves at "+esc+"): the EXISTS of a connector re-add overtakes the EXPUNGE and the message disappears from the session")
 		R.Min("R06.8", "*expunge type tests in popResponders", n, 1)
